@@ -125,6 +125,56 @@ func (w *World) rulesReturns(p *Pkg, m *parseModel, km *KvmModel, add func(ok bo
 		}
 		return false
 	}
+	// the guards enclosing a return read the raw input (scanner checks), as
+	// opposed to the cursor and the order table only
+	inputVars := map[types.Object]bool{m.param: true}
+	for changed := true; changed; {
+		changed = false
+		ast.Inspect(fd.Body, func(n ast.Node) bool {
+			as, ok := n.(*ast.AssignStmt)
+			if !ok {
+				return true
+			}
+			tainted := false
+			for _, r := range as.Rhs {
+				ast.Inspect(r, func(x ast.Node) bool {
+					if id, ok := x.(*ast.Ident); ok && inputVars[info.Uses[id]] {
+						tainted = true
+					}
+					return true
+				})
+			}
+			if !tainted {
+				return true
+			}
+			for _, l := range as.Lhs {
+				if o := identObj(info, l); o != nil && !inputVars[o] && o != m.abvObj && o != m.valObj {
+					inputVars[o] = true
+					changed = true
+				}
+			}
+			return true
+		})
+	}
+	mentionsInput := func(rs ast.Node) bool {
+		found := false
+		for _, anc := range stackOf(fd.Body, rs) {
+			var cond ast.Expr
+			switch x := anc.(type) {
+			case *ast.IfStmt:
+				cond = x.Cond
+			default:
+				continue
+			}
+			ast.Inspect(cond, func(n ast.Node) bool {
+				if id, ok := n.(*ast.Ident); ok && inputVars[info.Uses[id]] {
+					found = true
+				}
+				return true
+			})
+		}
+		return found
+	}
 	afterLoop := func(n ast.Node) bool { return n.Pos() > m.loop.End() }
 	inLoop := func(n ast.Node) bool { return n.Pos() >= m.loop.Pos() && n.End() <= m.loop.End() }
 	counts := map[string]int{}
@@ -245,6 +295,16 @@ func (w *World) rulesReturns(p *Pkg, m *parseModel, km *KvmModel, add func(ok bo
 			kind = "cursor-exhausted(default arm)"
 		case ifs != nil && inBody && ifs == fd.Body.List[0] && ov.Header != "":
 			kind, want = "header", "ErrInvalidCVSSHeader"
+		case m.autoOK && (inLoop(rs) || afterLoop(rs)) && !mentionsInput(rs):
+			// the cursor automaton is decided: which error each cursor
+			// state and abbreviation yields is settled exactly by R18.auto
+			kind = "cursor"
+			if sv.Name() == "ErrInvalidMetricOrder" {
+				counts["order"]++
+			}
+			if sv.Name() == "ErrTooShortVector" && afterLoop(rs) {
+				counts["short"]++
+			}
 		case ifs != nil && inBody && mentionsOrder(ifs.Cond):
 			kind, want = "order", "ErrInvalidMetricOrder"
 		case ifs != nil && inBody && afterLoop(ifs):
@@ -262,6 +322,15 @@ func (w *World) rulesReturns(p *Pkg, m *parseModel, km *KvmModel, add func(ok bo
 					kind = "separator"
 				}
 			}
+			if kind == "" && mentionsInput(rs) && !mentionsOrder(ifs.Cond) {
+				// a test on the raw input bytes outside the cursor logic
+				kind = "scanner"
+				if sv.Name() != "ErrInvalidMetricValue" {
+					// the other sentinels are documented for defects only the
+					// cursor logic can establish (order, truncation, header)
+					kind, want = "scanner", "ErrInvalidMetricValue"
+				}
+			}
 		}
 		switch {
 		case kind == "":
@@ -269,7 +338,11 @@ func (w *World) rulesReturns(p *Pkg, m *parseModel, km *KvmModel, add func(ok bo
 		case want == "":
 			add(true, "R18.census", name("observed:"+kind), rs, fmt.Sprintf("observed, not asserted: %s returns %s (DESIGN §9 O1/O2)", kind, sv.Name()))
 		default:
-			add(sv.Name() == want, "R18.census", name(kind), rs, map[bool]string{true: kind + " failure -> " + want, false: fmt.Sprintf("%s failure is reported with %s, the documented error is %s", kind, sv.Name(), want)}[sv.Name() == want])
+			detail := fmt.Sprintf("%s failure is reported with %s, the documented error is %s", kind, sv.Name(), want)
+			if kind == "scanner" {
+				detail = fmt.Sprintf("a test on the raw input outside the cursor logic returns %s, which is documented for defects only the order walk can establish; a malformed element is reported with %s", sv.Name(), want)
+			}
+			add(sv.Name() == want, "R18.census", name(kind), rs, map[bool]string{true: kind + " failure -> " + want, false: detail}[sv.Name() == want])
 		}
 		return true
 	})
@@ -304,4 +377,21 @@ func (w *World) rulesReturns(p *Pkg, m *parseModel, km *KvmModel, add func(ok bo
 
 func init() {
 	registerGroup("parse", func(w *World, out *[]Obligation) { w.rulesParse(out) })
+}
+
+// stackOf returns the ancestors of target inside root, outermost first.
+func stackOf(root, target ast.Node) []ast.Node {
+	var stack, out []ast.Node
+	ast.Inspect(root, func(n ast.Node) bool {
+		if n == nil {
+			stack = stack[:len(stack)-1]
+			return false
+		}
+		if n == target {
+			out = append([]ast.Node(nil), stack...)
+		}
+		stack = append(stack, n)
+		return out == nil
+	})
+	return out
 }
